@@ -18,7 +18,7 @@ LOG_MACROS = ("trace", "debug", "info", "warn", "error", "log")
 LEAN_KW = set("""end from at open type instance where then else do let fun match with if in have show by local prefix
 variable universe theorem def namespace section structure class inductive mutual deriving import export private
 protected partial unsafe macro syntax notation infix return for break continue try catch finally mut using extends
-calc Type Prop Sort abbrev example axiom opaque set_option attribute""".split())
+calc Type Prop Sort abbrev example axiom opaque set_option attribute matches""".split())
 
 INTLIT = ("intlit",)
 UNIT = ("unit",)
@@ -116,16 +116,29 @@ class FnInfo:
 class Unit:
     """one Rust source file -> one Lean namespace"""
 
-    def __init__(self, repo, rel, ns, const_files=(), externals=None, struct_files=()):
+    def __init__(self, repo, rel, ns, const_files=(), externals=None, struct_files=(), fn_files=()):
         self.repo, self.rel, self.ns = repo, rel, ns
         self.fi = FileIndex(rel, open(repo.rstrip("/") + "/" + rel).read())
         self.struct_src = {n: rel for n in self.fi.structs}
+        self.fn_src = {}            # (impl, name) -> FileIndex of another file (see fn_files)
+        cache = {}
+        def index_of(r):
+            if r not in cache: cache[r] = FileIndex(r, open(repo.rstrip("/") + "/" + r).read())
+            return cache[r]
         for r in struct_files:      # struct declarations of other files, used as local structures
-            idx = FileIndex(r, open(repo.rstrip("/") + "/" + r).read())
+            idx = index_of(r)
             for n, fields in idx.structs.items():
                 if n not in self.fi.structs:
                     self.fi.structs[n] = fields; self.struct_src[n] = r
-        self.const_idx = [self.fi] + [FileIndex(r, open(repo.rstrip("/") + "/" + r).read()) for r in const_files]
+        for r in fn_files:          # functions / methods (and the unit enums they mention) of other files, translated on
+            idx = index_of(r)       # demand like the functions of the unit's own file
+            for key, k in idx.fns.items():
+                if key not in self.fi.fns:
+                    self.fi.fns[key] = k; self.fn_src[key] = idx
+            for n, vs in idx.enums.items():
+                self.fi.enums.setdefault(n, vs)
+        self.const_idx = [self.fi] + [FileIndex(r, open(repo.rstrip("/") + "/" + r).read()) for r in const_files] \
+            + [index_of(r) for r in fn_files]
         self.externals = externals or {}   # name -> {"params": [rust type str], "ret": rust type str}
         self.fns = {}        # (impl, name) -> FnInfo  (translated)
         self.order = []      # emission order
@@ -257,8 +270,13 @@ class Unit:
         self.in_progress.add(key)
         snap = ({k: list(v) for k, v in self.used_fields.items()}, list(self.used_enums))
         try:
-            f = self.fi.function(impl, name)
+            src = self.fn_src.get(key)
+            if src is not None:
+                f = src.function(impl, name)
+            else:
+                f = self.fi.function(impl, name)
             info = FnTranslator(self, f).run()
+            if src is not None: info.rel = src.rel
         except RsError as e:
             self.failed[key] = "%s%s: %s" % ((impl + "::") if impl else "", name, e)
             if len(self.in_progress) == 1:
@@ -333,6 +351,7 @@ class FnTranslator:
         self.needs_deq = []
         self.local_consts = {}
         self.callees = []
+        self.ext_opaques = []  # opaque types that only occur in the types of externals
 
     def fresh(self, base="t"):
         self.n += 1
@@ -367,6 +386,7 @@ class FnTranslator:
             t = u.resolve(ty, self.impl)
             env[pat[1]] = t
             params.append((pat[1], t))
+            if t[0] == "struct": u.used_fields.setdefault(t[1], [])   # emitted even if no field is read
             if refmut: self.mut_params.append(pat[1])
         self.params_pre = params
         for mp in self.mut_params:
@@ -388,6 +408,7 @@ class FnTranslator:
         info.has_self = bool(params) and params[0][0] == "self"
         info.monadic = self.is_result or monadic(ir)
         info.exts = self.exts
+        info.ext_opaques = self.ext_opaques
         info.ir = ir
         info.dropped = self.dropped
         info.needs_deq = self.needs_deq
@@ -552,7 +573,7 @@ class FnTranslator:
     def has_try(self, e):
         if isinstance(e, tuple):
             if e and e[0] == "try": return True
-            if e and e[0] == "macro" and e[1] == "policy_err": return True
+            if e and e[0] == "macro" and e[1] in ("policy_err", "temporary_policy_err"): return True
             if e and e[0] == "macro": return False
             return any(self.has_try(x) for x in e)
         if isinstance(e, list):
@@ -602,7 +623,7 @@ class FnTranslator:
         if impl:
             k = self.u.fi.fns.get((impl, e[2]))
             if isinstance(k, int):
-                t = self.u.fi.toks
+                t = self.u.fn_src.get((impl, e[2]), self.u.fi).toks
                 j = k
                 while t[j].s != "(": j += 1
                 return t[j + 1].s == "&" and t[j + 2].s == "mut"
@@ -640,6 +661,15 @@ class FnTranslator:
                 env2 = dict(env)
                 env2[pat[1]] = ("alias", al, at)
                 return self.stmts(rest, tail, env2, fin)
+            if pat[0] == "pvar" and ("let:" + pat[1]) in self.u.externals:
+                return self.let_external(pat[1], e, line, rest, tail, env, fin)
+            if e[0] == "macro" and e[1] == "scoped_debug_return" and pat[0] == "pvar":
+                # util/debug_utils.rs: a guard that `debug!`-prints its arguments when it is dropped while its flag is
+                # still set; the only thing the function does with it is `*guard = false` before returning Ok
+                self.dropped.append("scoped_debug_return! guard `%s` at line %d (logging only)" % (pat[1], line))
+                env2 = dict(env)
+                env2[pat[1]] = ("dropped",)
+                return self.stmts(rest, tail, env2, fin)
             if e[0] in ("if", "iflet", "match") and self.has_return(e):
                 raise RsError("return inside a let initialiser (line %d)" % line)
             pre = []
@@ -659,6 +689,47 @@ class FnTranslator:
             e = st[1]
             return self.stmt_expr(e, rest, tail, env, fin)
         raise RsError("statement outside the subset: %s" % k)
+
+    def let_external(self, name, e, line, rest, tail, env, fin):
+        """`let <name> = <callee>(<expression outside the subset>)` declared in the target list as
+        `"let:<name>": {"callee": f, "args": [vars], "ret": T}`: the value becomes the external function
+        `ext_let_<name>` of exactly the listed variables.  Fail closed: the initialiser must still be a call of
+        `callee` and its free variables must be exactly the declared ones."""
+        spec = self.u.externals["let:" + name]
+        x = e
+        while x[0] in ("paren", "ref", "deref"): x = x[1]
+        if not (x[0] == "call" and x[1][0] == "path" and x[1][1][-1] == spec["callee"]):
+            raise RsError("initialiser of `%s` (line %d) is not a call of %s" % (name, line, spec["callee"]))
+        fv = []
+        def walk(a):
+            if isinstance(a, tuple):
+                if a and a[0] == "macro": raise RsError("macro inside the opaque initialiser of `%s`" % name)
+                if len(a) == 2 and a[0] == "path" and isinstance(a[1], list) and len(a[1]) == 1 and a[1][0] in env \
+                        and a[1][0] not in fv:
+                    fv.append(a[1][0])
+                for y in a: walk(y)
+            elif isinstance(a, list):
+                for y in a: walk(y)
+        walk(x[2])
+        if sorted(fv) != sorted(spec["args"]):
+            raise RsError("the initialiser of `%s` (line %d) reads %s, declared: %s" % (name, line, sorted(fv), sorted(spec["args"])))
+        rt = self.u.parse_type(spec["ret"], self.impl)
+        pre, terms, tys = [], [], []
+        for a in spec["args"]:
+            term, t = self.expr(("path", [a]), env, pre, None)
+            terms.append(term if " " not in term or term.startswith("(") else "(" + term + ")")
+            tys.append(t)
+        lty = " → ".join([self.u.lt(t, False) for t in tys] + [self.u.lt(rt, False)])
+        for t in tys + [rt]:
+            self.u.opaques_of(t, self.ext_opaques)
+        ident = "ext_let_" + name
+        self.add_ext(ident, lty)
+        self.dropped.append("initialiser of `%s` at line %d: `%s(..)` is not interpreted, it is the external %s of (%s)"
+                            % (name, line, spec["callee"], ident, ", ".join(spec["args"])))
+        env2 = dict(env)
+        env2[name] = rt
+        pre.append(("let", lid(name), "(%s %s)" % (ident, " ".join(terms))))
+        return self.wrap(pre, self.stmts(rest, tail, env2, fin))
 
     def bind_pat(self, pat, t, env):
         """Lean pattern text for a Rust irrefutable pattern; extends env"""
@@ -682,6 +753,13 @@ class FnTranslator:
             self.macro_stmt(e, env, pre)
             return self.wrap(pre, cont(env))
         if k == "assign":
+            try:
+                root = self.place_root(e[2])
+            except RsError:
+                root = None
+            if root in env and env[root] == ("dropped",):
+                if e[3][0] != "bool": raise RsError("assignment to a logging guard of something else than a literal")
+                return cont(env)
             pre = []
             env2 = self.assign(e, env, pre)
             return self.wrap(pre, cont(env2))
@@ -828,7 +906,13 @@ class FnTranslator:
             c, t = self.expr(("binary", "==" if name.endswith("eq") else "!=", a[0], a[1]), env, pre, BOOL)
             pre.append(("bind", "_", MCall("Rs.assert %s" % c)))
             return
-        if name == "policy_err":
+        if name == "scoped_debug_return":
+            raise RsError("scoped_debug_return! outside `let <var> = scoped_debug_return!(..)`")
+        if name in ("policy_err", "temporary_policy_err"):
+            if name == "temporary_policy_err":
+                # same filter decision (policy/mod.rs temporary_policy_error_with_filter); the error value differs
+                # only in its `temporary` kind, which the outcome type `Rs.Fail.err tag` does not carry
+                self.dropped.append("the `temporary` kind of the error of temporary_policy_err! at line %d" % line)
             a = split_macro_args(toks, self.u.rel)
             if a[0] != ("path", ["self"]): raise RsError("policy_err! on something else than self")
             if not (self.trait_self or "self" in env): raise RsError("policy_err! without self")
@@ -927,14 +1011,29 @@ class FnTranslator:
 
     def for_stmt(self, e, env, cont):
         _, pat, it, body = e
-        if self.has_return(body) or self.has_try(body):
-            raise RsError("return or ? inside a for loop is outside the subset")
+        if self.has_return(body):
+            return self.for_find(e, env, cont)
+        if self.has_try(body) and not self.is_result:
+            raise RsError("? inside a for loop of a function that does not return Result is outside the subset")
+        # `?` on a Result / policy_err! inside the loop of a Result-returning function: the error leaves the function,
+        # which is exactly what the `Except` monad does with the error of a `List.foldlM` step
         pre = []
         lst, elt = self.iter_expr(it, env, pre)
         A = [("self" if env[v][0] == "alias" else v) for v in self.assigned(body, [], set()) if v in env]
         A = [v for i, v in enumerate(A) if v not in A[:i]]
         if not A:
-            raise RsError("for loop without effect on outer variables")
+            if not self.has_try(body):
+                raise RsError("for loop without effect on outer variables")
+            env2 = dict(env)
+            xp = self.pat(pat, elt, env2)
+            def fin0(envb, t):
+                if t is not None and t[0] != "unit":
+                    return self.stmt_expr(t, [], None, envb, fin0)
+                return P("()")
+            bir = self.stmts(body[1], body[2], env2, fin0)
+            fn = "(fun _ %s => do\n%s)" % (xp, "\n".join(emit_m(bir, 8)))
+            pre.append(("bind", "_", MCall("List.foldlM %s () %s" % (fn, lst))))
+            return self.wrap(pre, cont(env))
         tup = lid(A[0]) if len(A) == 1 else "(" + ", ".join(lid(v) for v in A) + ")"
         env2 = dict(env)
         xp = self.pat(pat, elt, env2)
@@ -949,6 +1048,41 @@ class FnTranslator:
         else:
             pre.append(("let", tup, "List.foldl (fun %s %s => %s) %s %s" % (tup, xp, inline(bir), tup, lst)))
         return self.wrap(pre, cont(env))
+
+    def for_find(self, e, env, cont):
+        """`for x in l { …; if c { return v; } … }` without any other effect: the first `return` reached wins
+        (`List.findSome?`), otherwise the function goes on after the loop"""
+        _, pat, it, body = e
+        if self.is_result or self.selfk == "mut" or self.mut_params:
+            raise RsError("return inside a for loop of a Result-returning / state-updating function is outside the subset")
+        if self.has_try(body): raise RsError("? next to return inside a for loop is outside the subset")
+        if [v for v in self.assigned(body, [], set()) if v in env]:
+            raise RsError("return inside a for loop that also assigns outer variables is outside the subset")
+        pre = []
+        lst, elt = self.iter_expr(it, env, pre)
+        env2 = dict(env)
+        xp = self.pat(pat, elt, env2)
+        def fin_ret(envb, tail):
+            if tail is None: raise RsError("return without a value inside a for loop")
+            pre2 = []
+            term, ty = self.expr(tail, envb, pre2, self.val_ty)
+            self.check_ty(ty, self.val_ty, "return value")
+            return self.wrap(pre2, P("(some %s)" % term))
+        def fin_fall(envb, t):
+            if t is not None and t[0] != "unit":
+                return self.stmt_expr(t, [], None, envb, fin_fall)
+            return P("none")
+        saved = self.fin_return
+        self.fin_return = fin_ret
+        try:
+            bir = self.stmts(body[1], body[2], env2, fin_fall)
+        finally:
+            self.fin_return = saved
+        if monadic(bir): raise RsError("partial operation inside a for loop with return")
+        v = self.fresh("found")
+        pre.append(("let", v, "List.findSome? (fun %s => %s) %s" % (xp, inline(bir), lst)))
+        r = self.fresh("r")
+        return self.wrap(pre, Match(v, [("some %s" % r, P(self.pack(env, r))), ("none", cont(env))]))
 
     def iter_expr(self, it, env, pre):
         """(Lean list term, element type) of an iterable expression"""
@@ -1028,6 +1162,13 @@ class FnTranslator:
             if e[1] == "format": return self.format_(e, env, pre)
             raise RsError("macro %s! in expression position is outside the subset" % e[1])
         if k == "struct": return self.struct_lit(e, env, pre)
+        if k == "array":
+            el = want[1] if want is not None and want[0] == "vec" else None
+            parts = [self.expr(x, env, pre, el) for x in e[1]]
+            tys = [t for _, t in parts if t != INTLIT]
+            ty = tys[0] if tys else el
+            if ty is None or any(t != ty for t in tys): raise RsError("array literal with elements of different / unknown types")
+            return "[" + ", ".join(p[0] for p in parts) + "]", ("vec", ty)
         if k == "closure": raise RsError("closure outside a supported method argument")
         if k == "return": raise RsError("return in expression position")
         raise RsError("expression outside the subset: %s" % k)
@@ -1243,6 +1384,29 @@ class FnTranslator:
 
     def try_(self, e, env, pre, want):
         x = e[1]
+        # res.map_err(|e| e.prepend_msg(..))? : policy/error.rs prepend_msg keeps tag and kind, changes the message only
+        if x[0] == "mcall" and x[2] == "map_err" and len(x[4]) == 1:
+            c = x[4][0]
+            if c[0] == "closure" and len(c[1]) == 1 and c[1][0][0] == "pvar" and c[2][0] == "mcall" \
+                    and c[2][1] == ("path", [c[1][0][1]]) and c[2][2] == "prepend_msg":
+                self.dropped.append("map_err(|e| e.prepend_msg(..)) at line %d (message only)" % x[5])
+                return self.try_(("try", x[1]), env, pre, want)
+            # ext(..).map_err(|e| policy_error(tag, msg))? on an external declared with a `Result<T, _>` return type
+            # (an `Option T` in Lean, `none` = the external returned Err): the Err becomes the tagged policy error
+            if c[0] == "closure" and len(c[1]) == 1 and self.is_result:
+                body = c[2]
+                if body[0] == "block" and not body[1] and body[2] is not None: body = body[2]
+                if body[0] == "call" and body[1][0] == "path" and body[1][1][-1] == "policy_error":
+                    pre2 = []
+                    tag = self.err_tag(body, env, pre2)
+                    if pre2: raise RsError("error value with effects")
+                    term, t = self.expr(x[1], env, pre, None)
+                    if t[0] != "extres":
+                        raise RsError("map_err(|e| policy_error(..)) on something else than an external Result")
+                    v = self.fresh()
+                    pre.append(("bind", v, MCall("Rs.okOr %s %s" % (term, tag))))
+                    return v, t[1]
+            raise RsError("map_err with a closure other than |e| e.prepend_msg(..) / |e| policy_error(..) is outside the subset")
         # opt.ok_or(e)? / opt.ok_or_else(|| e)?
         if x[0] == "mcall" and x[2] in ("ok_or", "ok_or_else") and self.is_result:
             o, ot = self.expr(x[1], env, pre, None)
@@ -1297,6 +1461,8 @@ class FnTranslator:
     def call_translated(self, info, args_terms, env, pre, self_term=None):
         if getattr(info, "mut_params", None): raise RsError("call of a function with &mut parameters is outside the subset")
         for x in info.exts: self.add_ext(*x)
+        for o in getattr(info, "ext_opaques", []):
+            if o not in self.ext_opaques: self.ext_opaques.append(o)
         for o in info.needs_deq:
             if o not in self.needs_deq: self.needs_deq.append(o)
         self.callees.append(info.lean_name)
@@ -1371,9 +1537,21 @@ class FnTranslator:
             term, t = self.expr(a, env, pre, pt)
             self.check_ty(t, pt, "argument of external %s" % name)
             terms.append(term if " " not in term or term.startswith("(") else "(" + term + ")")
-        lty = " → ".join([self.u.lt(t, False) for t in pts] + [self.u.lt(rt, False)])
-        self.add_ext("ext_" + name, lty)
-        return "(ext_%s %s)" % (name, " ".join(terms)), rt, "val"
+        if rt[0] == "result":
+            # an external that returns Result<T, _>: `Option T` in Lean; the only supported use is
+            # `ext(..).map_err(|e| policy_error(tag, ..))?`
+            lrt = "(Option %s)" % self.u.lt(rt[1], False)
+            rt = ("extres", rt[1])
+            ots = pts + [rt[1]]
+        else:
+            lrt = self.u.lt(rt, False)
+            ots = pts + [rt]
+        lty = " → ".join([self.u.lt(t, False) for t in pts] + [lrt])
+        for t in ots:
+            self.u.opaques_of(t, self.ext_opaques)
+        ident = "ext_" + name.replace(".", "_")
+        self.add_ext(ident, lty)
+        return "(%s %s)" % (ident, " ".join(terms)), rt, "val"
 
     def mcall(self, e, env, pre, want):
         _, recv, m, turbo, args, line = e
@@ -1400,8 +1578,14 @@ class FnTranslator:
                 pre.append(("let", "(self, %s)" % v, term))
                 return v, info.val_ty, "val"
             return self.call_translated(info, a, env, pre, "self")
-        if recv[0] == "path" and len(recv[1]) == 1 and recv[1][0] not in env and recv[1][0] != "self":
+        if recv[0] == "path" and len(recv[1]) == 1 and recv[1][0] not in env and recv[1][0] != "self" \
+                and self.u.const_value(recv[1][0], self.local_consts) is None:
             raise RsError("method call on unknown %s" % recv[1][0])
+        if recv[0] == "path" and len(recv[1]) == 1 and recv[1][0] in env and env[recv[1][0]][0] in ("struct", "opaque") \
+                and "%s.%s" % (env[recv[1][0]][1], m) in self.u.externals:
+            # a method declared external in the target list: `ext_<Type>_<method> : Type → args → ret`
+            # (Type: a structure, or an opaque type such as a `&dyn Trait` parameter)
+            return self.call_external("%s.%s" % (env[recv[1][0]][1], m), [recv] + list(args), env, pre)
         if recv[0] == "path" and len(recv[1]) == 1 and recv[1][0] in env and env[recv[1][0]][0] == "struct" \
                 and (env[recv[1][0]][1], m) in self.u.fi.fns and m != "clone":
             v = recv[1][0]
@@ -1440,6 +1624,9 @@ class FnTranslator:
         if k == "tryres": return self.tryres_method(base, bt, m, args, env, pre)
         if k == "vec" or k == "iter": return self.list_method(base, bt, m, turbo, args, env, pre, want)
         if k == "str" and m in ("to_string", "as_str", "to_owned") and not args: return base, bt, "val"
+        if k == "str" and m == "starts_with" and len(args) == 1:
+            px, pt = self.expr(args[0], env, pre, ("str",)); self.check_ty(pt, ("str",), "starts_with")
+            return "(String.isPrefixOf %s %s)" % (px, base), BOOL, "val"
         if k == "map" and m == "get" and len(args) == 1:
             kk, kt = self.expr(args[0], env, pre, ("str",)); self.check_ty(kt, ("str",), "map key")
             return "(Rs.smapGet %s %s)" % (base, kk), ("opt", bt[2]), "val"
@@ -1586,6 +1773,8 @@ def fn_lean_lines(info):
     ops = []
     for _, t in info.params: u.opaques_of(t, ops)
     u.opaques_of(info.out_ty, ops)
+    for o in getattr(info, "ext_opaques", []):
+        if o not in ops: ops.append(o)
     sig = ""
     if ops: sig += " {%s : Type}" % " ".join(ops)
     for o in info.needs_deq: sig += " [DecidableEq %s]" % o
